@@ -494,6 +494,22 @@ func verifBodyHistory(s *verifEngC, gc *check.C) {
 				verifC12UC20PlanProbe(s, st, bseq, before.Current.N, nextRev)
 			}
 		}
+		if isCore {
+			// the setting is part of the core snap's own configuration, which snapd
+			// saves and restores per revision: after a revert or a refresh of core to
+			// a kept revision the value in force is the one that revision had
+			var v interface{}
+			if config.NewTransaction(st).Get("core", "refresh.retain", &v) == nil {
+				if n, err := strconv.Atoi(fmt.Sprint(v)); err == nil {
+					if n != retainCfg {
+						c.Count("probe:retain-setting-switched-with-the-core-revision")
+					}
+					retainCfg = n
+				}
+			} else {
+				retainCfg = 0
+			}
+		}
 		var ts *state.TaskSet
 		var err error
 		desc := ""
